@@ -517,7 +517,9 @@ def expand_self_aliases(fn: ast.FunctionDef) -> list[str]:
             elif isinstance(n, (ast.FunctionDef, ast.AsyncFunctionDef, ast.ClassDef)) and n is not fn:
                 other.add(n.name)
         changed = False
-        for st in sorted([n for n in ast.walk(fn) if isinstance(n, ast.Assign) and id(n) in order], key=lambda s: order[id(s)]):
+        # shorter paths first: `obj = self.a` must be expanded before `d = self.a.b` is judged, or a re-binding spelled
+        # `obj.b = ...` (e.g. the spliced body of a method of the owned object) would not be seen as one of `self.a.b`
+        for st in sorted([n for n in ast.walk(fn) if isinstance(n, ast.Assign) and id(n) in order], key=lambda s: (len(_self_chain(s.value) or ()) or 99, order[id(s)])):
             if len(st.targets) != 1 or not isinstance(st.targets[0], ast.Name):
                 continue
             a = st.targets[0].id
